@@ -16,7 +16,20 @@ Set operations carry the Python VALUE to hand to the setter as a structured desc
 "obj", ...}, see build_val) -- any value of the universe of model/SettingsVal.v, valid or not;
 operations without "val" use the older integer coding (decode).  The outcome of an operation
 is reported by KIND: 0 accepted, 1 TypeError, 2 ValueError, 3 AttributeError, 4 any other
-exception."""
+exception.
+
+Class HIERARCHIES ("hier": [{"k": kind, "b": [numbers of the bases]}, ...], creation order):
+the library's own base classes ("base" BaseImage, "gfx" GraphicsImage, "text" TextImage,
+"block" BlockImage), the style class ("root": KittyImage / ITerm2Image), image classes
+created with type(name, bases, {}) through the library's metaclass ("img": mix-ins derived
+from the base classes that are not style classes, style classes composed of a style base and
+mix-ins listed before or after it, diamonds) and plain object mix-ins ("obj").  Operations
+may target the library's base classes themselves; these are process-global, so the setting
+attributes of all library classes are put back to their import-time state in a finally
+block and the restoration is VERIFIED ("restored"; "clean_start" at the start of a case).
+Every class's real __mro__ is reported (as class numbers; [] when Python refuses to create
+the class).  A class the setting does not exist on reads ABSENT (-7).  Cases without "hier"
+use the older coding ("par": single-inheritance forest below the style class)."""
 import implenv
 from implenv import tests
 import atexit
@@ -31,7 +44,16 @@ from base64 import standard_b64decode
 
 from PIL import Image
 from term_image.exceptions import TermImageUserWarning
-from term_image.image import ImageIterator, ITerm2Image, KittyImage
+from term_image.image import (
+    BaseImage,
+    BlockImage,
+    GraphicsImage,
+    ImageIterator,
+    ITerm2Image,
+    KittyImage,
+    TextImage,
+)
+from term_image.image.common import ImageMeta
 from term_image.image.iterm2 import ITerm2ImageMeta
 
 tests.set_cell_size((10, 20))
@@ -182,6 +204,67 @@ def lower_probe():
     return bad
 
 
+ABSENT = -7
+_MISSING = object()
+LIB_CLASSES = (BaseImage, GraphicsImage, TextImage, BlockImage, KittyImage, ITerm2Image)
+SETTING_ATTRS = ("_forced_support", "_render_method", "_jpeg_quality", "_read_from_file")
+
+
+def lib_state():
+    """The setting attributes in the library classes' OWN dictionaries (+ the global limit)."""
+    st = {(c.__name__, a): vars(c).get(a, _MISSING) for c in LIB_CLASSES for a in SETTING_ATTRS}
+    st["limit"] = ITerm2ImageMeta._native_anim_max_bytes
+    return st
+
+
+PRISTINE = lib_state()  # import-time state of the process-global classes
+
+
+def restore_lib():
+    """Put every library class back to its import-time state; 1 if that succeeded."""
+    for c in LIB_CLASSES:
+        for a in SETTING_ATTRS:
+            want = PRISTINE[(c.__name__, a)]
+            if want is _MISSING:
+                if a in vars(c):
+                    delattr(c, a)
+            elif vars(c).get(a, _MISSING) is not want:
+                setattr(c, a, want)
+    ITerm2ImageMeta._native_anim_max_bytes = PRISTINE["limit"]
+    return int(lib_state() == PRISTINE)
+
+
+def build_hier(case, Root):
+    """The classes of a hierarchy case: (classes ([None]: creation refused), real MROs as class
+    numbers)."""
+    import types
+
+    lib = {"base": BaseImage, "gfx": GraphicsImage, "text": TextImage, "block": BlockImage, "root": Root}
+    classes = []
+    for c, e in enumerate(case["hier"]):
+        if e["k"] in lib:
+            classes.append(lib[e["k"]])
+            continue
+        bases = tuple(classes[b] for b in e["b"])
+        try:
+            if any(b is None for b in bases):
+                raise TypeError("base not created")
+            if e["k"] == "obj":
+                classes.append(type(f"O{c}", bases, {}))
+                continue
+            if c in case.get("meta", ()):
+                # a metaclass DERIVED from the one Python would pick: the settings must behave the same
+                winner = types.prepare_class(f"C{c}", bases)[0]
+                classes.append(type(f"M{c}", (winner,), {})(f"C{c}", bases, {}))
+            else:
+                classes.append(type(f"C{c}", bases, {}))
+        except TypeError:
+            classes.append(None)
+    index = {id(cl): i for i, cl in enumerate(classes) if cl is not None}
+    mros = [[] if cl is None else [index[id(x)] for x in cl.__mro__ if id(x) in index] for cl in classes]
+    return classes, mros
+
+
 def reset_root(Root):
     Root._render_method = Root._default_render_method
     for a in ("_forced_support", "_jpeg_quality", "_read_from_file"):
@@ -220,6 +303,14 @@ def as_bool(v):
 
 
 def read(s, obj):
+    if obj is None:
+        return ABSENT  # a class Python refused to create
+    if isinstance(obj, type):
+        # does the setting exist on this class?  (decided from the library's own structure)
+        if not isinstance(obj, ImageMeta if s in ("fs", "rm") else ITerm2ImageMeta):
+            return ABSENT
+        if s == "rm" and obj._render_method is None:
+            return ABSENT  # a class without render methods
     try:
         if s == "rm":
             return METHODS.index(obj._render_method.lower())
@@ -274,11 +365,14 @@ def run_case(case):
         return {"src": src_info(), "lower_bad": lower_probe()}
     root = case["root"]
     Root = {"kitty": KittyImage, "iterm2": ITerm2Image}[root]
+    clean_start = int(lib_state() == PRISTINE)
+    restore_lib()
     reset_root(Root)
     opened, insts = [], []
+    mros = None
     try:
         classes = [Root]
-        for c, p in enumerate(case["par"]):
+        for c, p in enumerate(case.get("par", ())):
             if c == 0:
                 continue
             meta = type(classes[p])
@@ -287,6 +381,10 @@ def run_case(case):
                 # in another metaclass'd base, a registry, ...): the settings must behave the same
                 meta = type(f"M{c}", (meta,), {})
             classes.append(meta(f"C{c}", (classes[p],), {}))
+        if "hier" in case:
+            classes, mros = build_hier(case, Root)
+        # the classes instances can be made of (all of them in a forest below the style class)
+        instantiable = case.get("inst_ok", range(len(classes)))
         kinds = case.get("src") or ["p"] * len(case["icls"])
         insts, datas = [], []
         for c, kd in zip(case["icls"], kinds):
@@ -352,6 +450,9 @@ def run_case(case):
             # classes' effective method as seen by a fresh instance; per-call override wins
             fresh, override = [], []
             for ci, C in enumerate(classes):
+                if ci not in instantiable:
+                    fresh.append(1)
+                    continue
                 inst = C(IMG, width=2, height=2)
                 got = framing(str(inst), root)
                 fresh.append(int((got == 0) == (cur["rm"][ci] == 0)))
@@ -367,6 +468,9 @@ def run_case(case):
             Root._supported = False
             inst_ok = []
             for ci, C in enumerate(classes):
+                if ci not in instantiable:
+                    inst_ok.append(1)
+                    continue
                 try:
                     C(IMG)
                     ok = 1
@@ -378,7 +482,8 @@ def run_case(case):
             final = {"fresh_ok": [0], "override_ok": [0], "instantiation_ok": [0],
                      "error": type(e).__name__}
         return {"obs": obs, "interference": interference, "framing_bad": framing_bad, "final": final,
-                "renders": renders, "srcs": [[int(i.is_animated), len(d)] for i, d in zip(insts, datas)]}
+                "renders": renders, "srcs": [[int(i.is_animated), len(d)] for i, d in zip(insts, datas)],
+                "mros": mros, "clean_start": clean_start}
     finally:
         for inst in insts:
             try:
@@ -387,8 +492,20 @@ def run_case(case):
                 pass
         for pil in opened:
             pil.close()
+        RESTORED.append(restore_lib())
         reset_root(Root)
 
 
+RESTORED = []
+
+
+def run_checked(case):
+    del RESTORED[:]
+    r = run_case(case)
+    if "obs" in r:
+        r["restored"] = int(RESTORED == [1])
+    return r
+
+
 if __name__ == "__main__":
-    implenv.write_results([run_case(c) for c in implenv.read_cases()])
+    implenv.write_results([run_checked(c) for c in implenv.read_cases()])
